@@ -7,6 +7,22 @@ CLAIMED = {
  "C03": dict(cat="exploration", tech="differential execution of 4 back ends under generated + boundary workloads; value/failure/host-call-trace comparison monitor",
    text="Runs every generated program on vm-switch, vm-callthread (hook), closure and interp with one environment and compares value (exact structural identity), failure class and the ordered host-call trace; size-limit families cross every VM encoding boundary. Exploration is the right level: the property is an equivalence of executions, decided by observing executions.",
    note="Trusted: the harness's value reader (bridge.FromVal), Go runtime. Inputs outside the generators are not covered. vm-callthread >=1024 dispatches is a recorded known finding (D15).", ref="DESIGN.md §4 C03"),
+
+ "C01": dict(cat="exploration", tech="invariant monitor: deep walk of every run-time value against the checker's own inferred type, on 4 back ends; -race (checkptr) and -asan builds",
+   text="Every value returned by every back end (and every value handed to a host function) is walked: non-nil, own type equals declared component type at every depth, map-key tags, object slot counts; the oracle uses the real checker's inferred type, so accepted mutants expose unsound acceptance as ill-typed values. All field-order permutations of equal objects are enumerated. Sanitizer builds watch the unsafe.Pointer casts behind each accessor.",
+   note="Trusted: bridge.FromVal / reference type equality (cross-checked against types.Equals on every node), Go runtime, race detector / ASan.", ref="DESIGN.md §4 C01"),
+ "C02": dict(cat="exploration", tech="outcome-classifier monitor vs reference evaluator (value | documented failure class | internal fault | process death), boundary and size-limit workloads, -race/-asan builds",
+   text="Each execution is classified and compared with the reference evaluator's prediction: a value where one is defined, exactly the documented failure class where the operation is undefined, never an internal fault; boundary operands in every position and families crossing the VM stack / operand-width limits.",
+   note="Trusted: reference evaluator (DESIGN.md Appendix A); oracle-silent zones are listed in the evidence assumptions.", ref="DESIGN.md §4 C02"),
+ "C04": dict(cat="exploration", tech="reference-model monitor: element-by-element comparison with an independent evaluator over exhaustive pool applications, literal forms and random programs, two time zones",
+   text="Every built-in applied exhaustively (thorough) / strided (quick) to boundary pools, every literal spelling, then random nested programs; the value must equal the independent reference evaluator's value with exact float bits.",
+   note="Trusted: the reference evaluator and Go's math / regexp / time packages.", ref="DESIGN.md §4 C04"),
+ "C05": dict(cat="exploration", tech="reference type-checker monitor: accept/reject and inferred type compared on well-typed programs, type-breaking mutants and permuted overload registrations",
+   text="Compilation verdict and inferred type of the real checker are compared with an independent reference checker on generated well-typed programs, on their type-breaking mutations and on overload sets registered in every order; accepted programs are also executed so a rejection that only arrives at run time is observed.",
+   note="Trusted: the reference checker (rules as stated in the property).", ref="DESIGN.md §4 C05"),
+ "C06": dict(cat="exploration", tech="trace monitor: ordered host-call trace and outcome vs reference evaluator; enumerated laziness families with failing operands in unselected positions",
+   text="Effect-recording and failing operands are placed in every operand position of every lazy and strict construct (nested to depth 3); the observed ordered host-call trace and the outcome must equal the reference evaluator's on all four back ends.",
+   note="Trusted: reference evaluator's evaluation order (strict left-to-right once; lazy operands only when forced).", ref="DESIGN.md §4 C06"),
 }
 NOT_YET = "check not built yet in this session (see DESIGN.md §4); will be claimed when its monitor exists"
 
